@@ -27,7 +27,7 @@ chk("C05", "model_checking",
     "requests, the exact list of backend calls, the post-state (black-box probes) and advertised capabilities after every step; long random "
     "sequences are validated by ServerConnTrace with the gating invariants evaluated on every observed state.",
     "Trusts TLC, the harness tokenizer and probes (CAPABILITY/FETCH/STATUS) to observe the state; only OK vs not-OK of tagged responses is "
-    "compared (the property does not fix NO vs BAD); SessionSASL backends are not modelled (PLAIN via Login only).",
+    "compared (the property does not fix NO vs BAD); SessionSASL mechanisms of the stub are PLAIN, XTEST (one challenge) and XFINAL (final data).",
     "TLA+ spec + TLC exhaustive check over the configuration product; transition-coverage and depth-bounded replay; trace validation",
     "DESIGN.md 3 (C05)", "tlc+harness/cmd/serverconn")
 
@@ -200,7 +200,7 @@ chk("C10", "model_checking",
     "and no handler; Next with partly read literals and early Close, two streaming commands in flight; CAPABILITY, ENABLE, NAMESPACE, LIST-STATUS, quota, metadata, SORT, THREAD, "
     "ESEARCH, MOVE, UID EXPUNGE, UNSELECT) are run against a scripted server whose reply "
     "stream is cut at every byte offset with each fault (quick: every 3rd offset plus all completion boundaries), with deadlines in virtual time; ClientFaultTrace judges every run; a script that does not terminate without any fault is a verdict too.",
-    "Deadlines are virtual (an armed read deadline fires at once); where the client has none the caller closes after 40 ms; 'does not return' = 4 s; STARTTLS transcripts are "
+    "Deadlines are virtual (once the connection has stalled and the client is at rest the clock jumps past every timeout: a read blocked with a deadline armed fails); where the client has none the caller closes 40 ms later; 'does not return' = 4 s; STARTTLS transcripts are "
     "not in the corpus. One benign deviation (success once the CR of the tagged line is read) is a recorded known finding.",
     "TLA+ spec + TLC (safety and liveness); fault injection at every byte offset of scripted sessions; trace validation of recorded runs",
     "DESIGN.md 3 (C10)", "tlc+harness/cmd/clientfault")
@@ -254,3 +254,46 @@ chk("C09", "model_checking",
     "model result equals. Random walks and recorded histories are sampled. After a known-finding step the rest of that behaviour is not compared. Stale views are C08's area (NOOP-sync before audits).",
     "TLA+ reference model + TLC; bounded-exhaustive transition and query-vector replay on the real server; trace validation of recorded histories",
     "DESIGN.md 3 (C09)", "tlc+harness/cmd/memmodel")
+
+
+# additions of later rounds (appended to the text of the level claimed)
+EXTRA = {
+ "C01": "The flag catalogue holds one keyword in three spellings decoded in one process (a keyword is delivered as written, whatever was decoded before); "
+        "string catalogue values are followed by sentinels so that a decoder reading past its value is seen.",
+ "C03": "The catalogue includes SEARCH results of 2500 and 1000+1501 numbers, LIST data crossed with the (reference, pattern) the command was issued with, "
+        "and literal-carrying data in every position.",
+ "C04": "Sessions with their own SASL mechanisms are a start configuration; unit AUTH-FINAL (a mechanism that ends with data for the client) must consume the "
+        "client's answer; a server that stops answering after an authentication it accepted is reported as out-of-step.",
+ "C05": "SessionSASL backends (PLAIN, XTEST) are a configuration; AUTHENTICATE with its credentials on the command line or after the continuation request, "
+        "accepted, rejected or cancelled, is an action; Authenticate counts as a credential-bearing backend call. Quick replays the transitions of the 32 "
+        "core configurations, thorough all of them.",
+ "C06": "Transcripts include a LITERAL+ server with literals at and over the limits, credentials the backend rejects nine times in a row through LOGIN and both forms "
+        "of AUTHENTICATE, SEARCH keys nested up to 20000 deep (NestMax: beyond the bound the backend is not reached); cut kinds include the peer vanishing "
+        "altogether (gone), before the greeting (doa) and Server.Close.",
+ "C08": "Taking the pending updates and writing them are two steps of the model (held / STALL / RESUME: a NOOP from a client that has stopped reading blocks the "
+        "server in its first write; other sessions' updates queue behind what has been taken): generator instances q_slow / t_slow / t_slow3 and stalls in the "
+        "random driver. The model's mailbox A is INBOX on the wire and a third party renames INBOX away and back between commands (a no-op for every session).",
+ "C09": "STORE flag lists naming a flag twice in different spellings are part of the command alphabet.",
+ "C10": "The client's own read deadline is part of the model: none between responses, armed inside a response and while a literal is consumed; SpecNoClose (a caller "
+        "that never closes the client) satisfies StallInsideResponseTimesOut, and every recorded run carries mid (cut inside a response) and self (all calls returned "
+        "before the caller's Close), judged by fault = stall /\\ inside => self. Scripts: mail, auth, idlepipe, unsol, stream (incl. a caller that takes its time "
+        "between calls), conc (2 and 3 goroutines), ext (extension commands).",
+ "C13": "The stress driver also issues LOGIN answered without CAPABILITY code (the client's internal CAPABILITY command competes with the other goroutines) and "
+        "APPEND; the hook log of a round is taken at quiescence.",
+ "C14": "IdleNotify.tla specifies the wake-up protocol between a command holding the mailbox lock and an idling session (bounded channel, non-blocking send; the "
+        "blocking variant is the vacuity guard) and is replayed for every (client behaviour x burst class) on the real server. A stress stall explained by a "
+        "logged server panic is reported as command-never-completes/server-panic.",
+ "C15": "Every flavour (imapnum.Set, SeqSet, UIDSet; value, pointer) also starts from an empty literal and from make(T, 0).",
+ "C16": "Every encode vector also goes through the real call sites (imapwire.Encoder.Mailbox -> wire text -> Decoder.ExpectMailbox).",
+ "C17": "Sessions with their own SASL mechanisms are among the configurations; AUTHENTICATE-X lines in front of and behind the STARTTLS line.",
+ "C18": "Dimensions stale (capabilities invalidated by LOGIN and not yet re-announced advertise nothing), unauth (UNAUTHENTICATE undoes every ENABLE) and saslir "
+        "(initial response on the command line only with SASL-IR or IMAP4rev2); APPEND written in split writes.",
+ "C19": "Operands are built in five time zones with clock times on both sides of midnight (date bounds compare by calendar date); '$' (saved search result) is a UID "
+        "set value that must survive And.",
+ "C20": "Random vectors include spellings of 'inbox' as first hierarchy component of name and pattern (ordinary characters to the matcher).",
+ "C12": "Client.tla covers 30 command kinds (incl. SORT, THREAD, quota, metadata, NAMESPACE, ENABLE, MOVE, APPEND with synchronising literal, IDLE) and is instantiated "
+        "eight times through Kinds/Greetings; the generator's view carries the completions witnessed per pending command, and the pipe instance enumerates every "
+        "behaviour of a small pipeline alphabet to depth 6/7.",
+}
+for _k, _v in EXTRA.items():
+    CHECKS[_k]["level_claimed"]["text"] += " Later rounds: " + _v
